@@ -56,6 +56,8 @@ class G:
                 out.append(('inline', 'foo', self.inl(depth + 1, False, inside)))
             else:
                 out.append((k, self.inl(depth + 1, False, inside | ({k} if k in ('b', 'i', 'u') else set()))))
+                if k in ('b', 'i', 'u') and rng.random() < 0.2:
+                    out.append((k, [self.w(1)]))   # a second element of the same kind touching the first: **a****b**
             out.append(' ' + self.w(1))
         return out
 
@@ -157,7 +159,8 @@ class G:
             return ('speechc', rng.choice(gen.SPEECH_CONTAINERS), self.attrs(), self.num() if rng.random() < 0.4 else None,
                     self.inl(1, False) if rng.random() < 0.5 else None, None, [self.speech(depth + 1) for _ in range(rng.randint(1, 2))])
         if depth < 5 and r < 0.65:
-            return ('speechg', rng.choice(gen.SPEECH_GROUPS), {}, self.num() if rng.random() < 0.2 else None, None, None,
+            by = {'by': rng.choice(['#spk', '/ontology/person/za/mongella', 'mongella', 'http://example.org/p/m'])} if rng.random() < 0.25 else {}
+            return ('speechg', rng.choice(gen.SPEECH_GROUPS), by, self.num() if rng.random() < 0.2 else None, None, None,
                     self.inl(2, False), [self.speech(depth + 2) for _ in range(rng.randint(1, 2))])
         if r < 0.8:
             return ('speechb', rng.choice(gen.SPEECH_BLOCKS), self.attrs(), self.inl(1, False))
